@@ -235,6 +235,13 @@ static void h_op(void)
   else if (!strcmp(op, "readblock")) {
     int i; char *b, *p; size_t cap = 256;
     if (!blk) blk = abc ? esl_sq_CreateDigitalBlock((int) h_argi("list", 8), abc) : esl_sq_CreateBlock((int) h_argi("list", 8));
+    /* the caller's part of the contract (as the HMMER search loops do it): recycle the sequences in short mode; in long-target
+     * mode move an incomplete last window to slot 0 and say how much context is wanted */
+    if (!h_argi("long", 0)) { for (i = 0; i < blk->listSize; i++) esl_sq_Reuse(blk->list + i); }
+    else if (!blk->complete && blk->count > 0) {
+      if (blk->count > 1) esl_sq_Copy(blk->list + blk->count - 1, blk->list);
+      blk->list->C = ESL_MIN(h_argi("ctx", 0), blk->list->n);
+    }
     status = esl_sqio_ReadBlock(sqfp, blk, (int) h_argi("maxres", -1), (int) h_argi("maxseq", -1), (int) h_argi("init", 0), (int) h_argi("long", 0));
     if (status == eslOK) {
       const char *bad = NULL;
